@@ -383,7 +383,7 @@ def rule_symscore(ctx):
         for r in s.returns:
             if is_lit(r.term):
                 conds = symeval.pc_conds(r.pc)
-                gs = all(M.swap(c) is M.norm(c) for c, _ in conds)
+                gs = all(M.swap(c) is M.norm(c) or _guard_symmetric(c, f) for c, _ in conds)
                 yield ob(R, f, "%s:guard-symmetric" % qual, gs, "the trivial-partition special case tests both sides alike")
     f = ctx.program.func("util.f_measure", R)
     s = ctx.S.get(f.qual)
@@ -425,6 +425,21 @@ def rule_segtwin(ctx):
         if o.construct in ("chord.evaluate:merged-ref", "chord.evaluate:merged-est", "chord.evaluate:underseg", "chord.evaluate:overseg", "chord.evaluate:seg"):
             o.rule = "C06.SEGTWIN"
             yield o
+
+
+def _guard_symmetric(c, f):
+    """semantic fallback: the guard and its role-swapped image agree on every valuation of the compared counts"""
+    from .. import finmodel
+
+    sw = swap_roles(c, f)
+
+    # both label sequences sample the same frame grid (validate_structure): their lengths are one quantity
+    def same_len(x):
+        if x.op == "call" and call_name(x) == "builtins.len" and len(x.a[1]) == 1 and x.a[1][0].op == "param" and x.a[1][0].a[0] == "estimated_indices":
+            return tm.call(x.a[0], (tm.param("reference_indices"),), x.a[2])
+        return None
+
+    return finmodel.equivalent(tm.rebuild(c, same_len), tm.rebuild(sw, same_len)) is True
 
 
 def rule_amibounds(ctx):
